@@ -108,6 +108,8 @@ def make_doc(seed, ncontracts=2, nblocks=4, with_no_asm=True, version="0.8.15+co
         name = contract_name(c, naming)
         data = {}
         sub = {".auxdata": "a264" + "%060x" % rng.getrandbits(240), ".code": code_section(rng, nblocks, 100, pool)}
+        if rng.random() < 0.3:
+            del sub[".auxdata"]          # compiled without metadata, Yul objects: a sub-assembly need not carry auxiliary data
         if rng.random() < 0.5:
             sub[".data"] = {"%064X" % rng.getrandbits(256): "6080%040x" % rng.getrandbits(160)}
             if rng.random() < 0.5:
@@ -116,6 +118,8 @@ def make_doc(seed, ncontracts=2, nblocks=4, with_no_asm=True, version="0.8.15+co
         # further code-bearing sub-assemblies next to the runtime code (contracts created with `new`): sections must not be mixed up
         for extra in range(rng.choice([0, 0, 1, 2])):
             data[str(extra + 1)] = {".auxdata": "a264" + "%060x" % rng.getrandbits(240), ".code": code_section(rng, rng.randrange(1, 3), 500 + 100 * extra, pool)}
+            if rng.random() < 0.5:
+                del data[str(extra + 1)][".auxdata"]      # the creation code of a contract deployed with `new` has none of its own
         if rng.random() < 0.4:
             data["%064X" % rng.getrandbits(256)] = "%040x" % rng.getrandbits(160)
         asm = {".code": code_section(rng, max(1, nblocks // 2), 1, pool), ".data": data}
